@@ -135,6 +135,23 @@ class Vocab(object):
                 s += "{%s%s}" % (abs(q) if abs(q) > 1 else "", "+" if q > 0 else "-")
             c = rng.choice([1, 1, 2, 3, 0.5, 12])
             parts.append(s + ("" if c == 1 else str(c)))
+        if not natural_only and rng.random() < 0.2:
+            # the rest of the grammar: D/T tokens (with charges), explicit groups with counts,
+            # separators, density suffixes and mixtures by mass / volume / layer thickness
+            k = rng.randrange(6)
+            if k == 0:
+                parts.append(rng.choice(["D2", "T", "D{+}", "T{+}2", "D3"]))
+            elif k == 1:
+                parts = ["(" + "".join(parts) + ")" + rng.choice(["2", "3", "0.5"]), rng.choice(["", "+", " "]) + parts[0]]
+            elif k == 2:
+                parts.append(rng.choice(["@1.3", "@2.1n", "@0.9i"]))
+            elif k == 3:
+                parts = ["%d%s %s@%s // %s@1.1n" % (rng.choice([5, 30, 50]), rng.choice(["wt%", "%wt", "%vol", "vol%"]),
+                                                    "".join(parts), rng.choice(["1.2", "2.5n"]), rng.choice(["H2O", "D2O", parts[0]]))]
+            elif k == 4:
+                parts = ["%s %s@2.2 // 3nm %s@1.1" % (rng.choice(["2nm", "1um", "5 mm"]), "".join(parts), rng.choice(["D2O", "SiO2", parts[0]]))]
+            else:
+                parts = ["(" + parts[0] + "(" + "".join(parts[1:] or ["O"]) + ")2)3"]
         return "".join(parts)
 
 
